@@ -1,5 +1,6 @@
 import TsProofs.ManifestOps
 import TsProofs.Partition
+import TsProofs.Glob   -- fnmatch model: which paths a replication glob selects
 import TsProofs.Properties.C01World   -- whole-job theorems (C06_world_*, C07_world_*) audited with this property too
 /-!
 # C07 — Who can load what: replicated everywhere, sharded reshards, private stays put
